@@ -23,9 +23,9 @@ def D(label, decide):
     return (label, 'D', decide)
 
 
-def _octa(got, a, b, w, sign):
+def _octa(got, a, b, w, sign, unsigned=False):
     from engine import octa
-    return octa.saturating(got, a, b, w, sign)
+    return octa.saturating(got, a, b, w, sign, unsigned)
 
 
 def K(ty, v):
@@ -161,6 +161,7 @@ def sadd(ty, a, b):
     # a + min(b, ~a): ~a = MAX - a is the head-room
     alts.append(I('x+min(y,~x)', T.add(a, T.minmax('umin', b, T.not_(a)))))
     alts.append(I('y+min(x,~y)', T.add(b, T.minmax('umin', a, T.not_(b)))))
+    alts.append(D('clamp(x + y) to [0, UMAX] by octagon case analysis', lambda got: _octa(got, a, b, ty.bits, +1, True)))
     return alts
 
 
@@ -177,6 +178,7 @@ def ssub(ty, a, b):
     alts = [P('usub.sat', T.raw_op('usub.sat', ty.bits, a, b))]
     alts.append(I('x-min(x,y)', T.sub(a, T.minmax('umin', a, b))))
     alts.append(P('x>y ? x-y : 0', T.sel(T.icmp('ugt', a, b), T.sub(a, b), K(ty, 0))))
+    alts.append(D('clamp(x - y) to [0, UMAX] by octagon case analysis', lambda got: _octa(got, a, b, ty.bits, -1, True)))
     return alts
 
 
